@@ -127,7 +127,7 @@ def plan(ctx, tier, seed):
     for nm, ops in curated():
         hs.append(scenario("C01.S1." + nm, "C01", ops, disk=8192 if nm in ("promote", "reopen-append", "gap") else 4096))
     rng = random.Random(1000 + seed)
-    nrand = 4 if tier == "quick" else 60
+    nrand = 2 if tier == "quick" else 60
     for i in range(nrand):
         hs.append(scenario("C01.S1.rand%d" % i, "C01", random_skeleton(rng), disk=8192, group="C01.S1.rand"))
     return hs
